@@ -232,8 +232,17 @@ class C14Monitor:
                 if prev is not None and not hasattr(m, "get_components"):
                     exp = self.ft.expected_next(m.market_id, t - 1, prev)
                     if exp is None:
-                        res.inconc("no generated log-return known for market %d time %d" % (m.market_id, t - 1))
-                    else:
+                        # no log-return was seen at the generator's observation point for this step (an
+                        # implementation may produce flat or deterministic stretches without it): a market whose
+                        # configured volatility is zero must still follow previous level x exp(drift); a volatile
+                        # one cannot be judged here (C12 judges the generator itself)
+                        mc = self.cfg[m.name]
+                        if mc.get("fundamentalVolatility", 0.0) == 0.0:
+                            exp = prev * math.exp(mc.get("fundamentalDrift", 0.0))
+                            res.count("continuations_judged_by_closed_form")
+                        else:
+                            res.count("continuation_not_judged(no log-return observed)")
+                    if exp is not None:
                         res.count("continuations_checked")
                         if self.scale(m.name, t - 1)[1]:
                             res.count("class/continuation_after_shock")
